@@ -397,6 +397,61 @@ example : Presentation ["w", "h"] [.int 3, .int 4] where
   hr := by simp [restBindings, binding, kwHas]
   hkw := by simp [restBindings, binding, kwHas]
 
+/-! ## Chained partial applications -/
+
+theorem kwSet_has (m : KwMap) (k : String) (v : Arg) : (kwSet m k v).any (fun p => p.1 == k) = true := by
+  unfold kwSet
+  split
+  · rename_i h
+    simp only [List.any_map]
+    obtain ⟨p, hp, hk⟩ := List.any_eq_true.mp h
+    refine List.any_eq_true.mpr ⟨p, hp, ?_⟩
+    simp only [Function.comp, hk, if_true, beq_self_eq_true]
+  · simp
+
+/-- binding a keyword twice keeps the later value only: the map is the one obtained by binding the later value alone -/
+theorem kwSet_kwSet_same (m : KwMap) (k : String) (v w : Arg) : kwSet (kwSet m k v) k w = kwSet m k w := by
+  have h1 := kwSet_has m k v
+  have houter : kwSet (kwSet m k v) k w = (kwSet m k v).map (fun p => if p.1 == k then (k, w) else p) := by
+    generalize kwSet m k v = m' at h1 ⊢
+    unfold kwSet; rw [if_pos h1]
+  rw [houter]
+  unfold kwSet
+  split
+  · simp only [List.map_map]
+    apply List.map_congr_left
+    intro p _
+    simp only [Function.comp]
+    by_cases hp : (p.1 == k) = true
+    · simp [hp]
+    · simp [hp]
+  · rename_i hno
+    simp only [List.map_append, List.map_cons, List.map_nil, beq_self_eq_true, if_true]
+    congr 1
+    have : ∀ p ∈ m, (p.1 == k) = false := by
+      intro p hp
+      cases hpk : (p.1 == k) with
+      | false => rfl
+      | true => exact absurd (List.any_eq_true.mpr ⟨p, hp, hpk⟩) hno
+    rw [List.map_congr_left (g := id)]
+    · simp
+    · intro p hp; simp [this p hp]
+
+/-- successive `partial` calls are one `partial` call with the arguments appended and the keywords applied in order -/
+theorem chained_partials_are_one (pargs : List Arg) (pkw : KwMap) (a a' : List Arg) (k k' : KwMap) :
+    partialStep (partialStep pargs pkw a k).1 (partialStep pargs pkw a k).2 a' k' = partialStep pargs pkw (a ++ a') (k ++ k') := by
+  simp [partialStep, List.foldl_append, List.append_assoc]
+
+/-- **re-binding an already bound partial keyword binds the later value**: `f.partial(p=v).partial(p=w)` has the
+    effective keyword arguments — hence the key, by `key_iff` — of `f.partial(p=w)`, whatever `v` was (also when `v == w`
+    in Python's sense but of another type) -/
+theorem rebound_partial_binds_latest (params : List String) (pargs : List Arg) (pkw : KwMap) (p : String) (v w : Arg)
+    (args : List Arg) (kwargs : KwMap) :
+    let once := partialStep pargs pkw [] [(p, v)]
+    let twice := partialStep once.1 once.2 [] [(p, w)]
+    effKw params twice.1 twice.2 args kwargs = effKw params pargs (partialStep pargs pkw [] [(p, w)]).2 args kwargs := by
+  simp only [partialStep, List.foldl_cons, List.foldl_nil, List.append_nil, kwSet_kwSet_same]
+
 /-- context arguments are part of the key; the empty dictionary is the same as none -/
 theorem ctx_empty_is_absent (kw : KwMap) : keyTokens kw [] = ser (encode (.dict (ArgObj.ofList kw))) := by
   simp [keyTokens, withCtx]
